@@ -160,7 +160,7 @@ pub fn minimise(
             }
             checks += 1;
             let mut cov = Cov::default();
-            let vs = prop.check(&cand, &mut cov);
+            let vs = guarded_check(prop, &cand, &mut cov);
             if let Some(v) = vs.iter().find(|v| v.oracle == target.oracle) {
                 if known.classify(v, &features(&cand)) == class0 {
                     best = cand;
